@@ -99,6 +99,7 @@ PROPS = {
             "BPT.Tie.rust_rebalance_tests",
         ],
         "suites": [
+            {"kind": "rust", "suite": "tree-deep", "quick": {"cases": 1, "len": 100000}, "thorough": {"cases": 4, "len": 750000}},
             {"kind": "rust", "suite": "tree-exh", "quick": {"cases": 65536, "len": 4}, "thorough": {"cases": 131072, "len": 5}},
             {"kind": "rust", "suite": "tree-ops",
              "quick": {"cases": 500, "len": 300}, "thorough": {"cases": 3000, "len": 400}},
@@ -120,6 +121,7 @@ PROPS = {
         ],
         "ties": ["BPT.Tie.no_interior_mutability", "BPT.Tie.rust_null_node"],
         "suites": [
+            {"kind": "rust", "suite": "tree-deep", "quick": {"cases": 1, "len": 720000}, "thorough": {"cases": 4, "len": 750000}},
             {"kind": "rust", "suite": "tree-exh", "quick": {"cases": 8192, "len": 3}, "thorough": {"cases": 65536, "len": 4}},
             {"kind": "rust", "suite": "tree-iter",
              "quick": {"cases": 600, "len": 150}, "thorough": {"cases": 2000, "len": 200}},
@@ -147,6 +149,7 @@ PROPS = {
             "BPT.Tie.rust_leaf_insert_goes_left_eq", "BPT.Tie.rust_branch_split_mid_eq",
             "BPT.Tie.rust_rebalance_tests"],
         "suites": [
+            {"kind": "rust", "suite": "tree-deep", "quick": {"cases": 1, "len": 100000}, "thorough": {"cases": 4, "len": 750000}},
             {"kind": "rust", "suite": "tree-exh", "quick": {"cases": 65536, "len": 4}, "thorough": {"cases": 131072, "len": 5}},
             {"kind": "rust", "suite": "tree-ops",
              "quick": {"cases": 500, "len": 300}, "thorough": {"cases": 3000, "len": 400}},
@@ -230,6 +233,7 @@ PROPS = {
         ],
         "ties": ["BPT.Tie.rust_range_skip_only_matched", "BPT.Tie.rust_end_key_honours_inclusive"],
         "suites": [
+            {"kind": "rust", "suite": "tree-deep", "quick": {"cases": 1, "len": 720000}, "thorough": {"cases": 4, "len": 750000}},
             {"kind": "rust", "suite": "tree-range",
              "quick": {"cases": 720, "len": 120}, "thorough": {"cases": 2000, "len": 200}},
         ],
@@ -262,7 +266,7 @@ PROPS = {
         "module": "BPT.Props.C15",
         "tags": ["C15"],
         "theorems": [
-            "BPT.Props.C15.no_ub_from_any_state", "BPT.Props.C15.validators_no_ub", "BPT.Props.C15.next_no_ub",
+            "BPT.Props.C15.no_ub_from_any_state", "BPT.Props.C15.validators_no_ub", "BPT.Props.C15.next_no_ub", "BPT.Props.C15.positioned_constructors_no_ub",
             "BPT.Props.C15.legacy_witnesses", "BPT.Rust.readers_noub", "BPT.Rust.checkDetailed_noub",
         ],
         "ties": ["BPT.Tie.unsafe_sites_catalogue", "BPT.Tie.unchecked_calls_catalogue", "BPT.Tie.rust_iter_guard_both", "BPT.Tie.rust_fast_checked"],
